@@ -86,6 +86,10 @@ EDGE_TEXTS = [
     # the same letter in both cases is two different variables
     "2x + 3X", "4p^2 + 3P^2", "x * X", "2x * 3X^2", "(2x + y) + 3X", "2x + 3X = 10", "x + X = 2x", "x / X", "x - X", "X + (x + X)",
     "1.5x + 1.5x", "0.1x + 0.2x", "0.1 + 0.2", "0.1 * 3", "1 / 3", "2 / 3 * 3", "10 * 0.1", "1000000 * 1000000", "99999 * 99999 + 1", "7x + 7x^1", "x^2 + x^2.0",
+    # folds whose result is tiny, or needs all 17 digits: a constant is not 'noise' because it is small
+    "x = 3 / 8000000000000000", "x = 0.00000001 * 0.00000003", "x = 1 / 7000000000", "y = 0.000001 * 0.000001x", "3 / 8000000000000000 + y",
+    "1 / 7000000000 * z", "0.00000000000000002 + 0.00000000000000001 + x", "x = 0.000000001 / 3", "2y = 1 / 3000000000000", "0.0000001 * (0.0000003 * p)",
+    "1 / 3 + x", "x = 2 / 3", "7 / 9 * y = 1", "1 / 30000 + (1 / 70000 + x)", "x = 123456789 / 1000000000000000000",
 ]
 
 
@@ -106,6 +110,11 @@ BIG_TEXTS = [
     "0.1^300 + x", "1.5 * 10^300 * x", "9007199254740993 * 0.5", "0.3 - 0.1 - 0.2 + x",
     "0.1 + 0.2 + 0.3 + x", "1000000 * 0.000001", "33 * 0.01 - x", "(1 / 3) * 3 = x", "x = 1 / 1000000",
 ]
+# an exact integer beyond the range of a double next to a float, in every constant-arithmetic arrangement: the fold
+# itself overflows (an OverflowError is a loud refusal; whatever comes back instead must still be a sound tree)
+_H = "1" + "0" * 399
+BIG_TEXTS += [f"2.5x * {_H}", f"0.5 + ({_H} + y)", f"{_H} * (1.5 * y)", f"{_H} * 2.5", f"({_H} + 0.5) + x", f"{_H}x * 0.5", f"(x * 2.5) * {_H}", f"{_H} + (0.5 + y)",
+              f"z = 1.5y * {_H}", f"{_H} * (2x * 0.25)", f"(0.5 + x) + {_H}", f"{_H} / 2.5 + x", f"3x * {_H}", f"{_H} * {_H} + 0.5x"]
 
 
 def long_texts():
@@ -129,7 +138,11 @@ def huge_token_texts():
     """single tokens far longer than any buffer size, not at the start of the text (parser and
     tokenizer checks only: a 600-letter run is a product chain 600 levels deep)"""
     return ["x + " + "7" * 600, "2 * 0." + "3" * 700 + " + y", "(y - 1) * (" + "12345678" * 140 + ")", "2" + "a" * 512 + "sgn(0 - 3)",
-            "4 + " + "xyz" * 200 + " - 1", "1 + " + "9" * 513 + " * x", "x^" + "2" * 520 + " + 1" if False else "3 * " + "8" * 1025]
+            "4 + " + "xyz" * 200 + " - 1", "1 + " + "9" * 513 + " * x", "x^" + "2" * 520 + " + 1" if False else "3 * " + "8" * 1025] + [
+            # integer literals around the interpreter's own limit for int(str) (4300 digits by default): up to the
+            # limit they are exact integers, beyond it int() itself refuses (a ValueError like any malformed number)
+            pre + "".join("1234567890"[(i * 7 + n) % 10] for i in range(n)).lstrip("0") + post
+            for n in (2049, 4000, 4001, 4200, 4299, 4300, 4301, 5000, 8100) for pre, post in (("x - ", ""), ("", " = y"))]
 
 
 def required_apply_arms(minimum=3, rules=None):
